@@ -13,6 +13,7 @@ from ..escape import Escape
 from ..flow import ERROR
 from ..model import UNKNOWN, AnchorError, Class, Func, UnknownIdiom, dotted, short
 from .appflow import ASGI_CALL, WSGI_CALL, AppFlow
+from .c04 import bind_args, fold_in, inert_default, once_bound, plain_helper
 from .c04_helpers import (Index, aliases, assume_none, attr_of, combine, def_value, effective_method, eval3, is_name,
                           none_test, param_at, pruned, refuted)
 from .common import dict_literal, enclosing_map, ancestors, implied, is_self_attr, mentions, nodes_within, single, strip_await, walk_self
@@ -1392,22 +1393,194 @@ def _stream_loops(f: Func, fnode, is_s):
     return is_loop, [n for n in walk_self(fnode) if is_loop(n)]
 
 
+class _CloseIdioms:
+    """The ways a function closes a stream and asks whether it can be closed, read alike:
+    `S.close()`; `c = S.close` ... `c()` (a local bound to the bound method IS the method);
+    `c = getattr(S, 'close', None)` ... `if c is not None / if c:` ... `c()`;  `hasattr(S, 'close')`."""
+
+    def __init__(self, f: Func, is_s):
+        self.is_s = is_s
+
+        def bound(e):
+            return isinstance(e, ast.Attribute) and e.attr == 'close' and is_s(e.value)
+
+        def got(e):
+            return (isinstance(e, ast.Call) and is_name(e.func, 'getattr') and len(e.args) == 3 and not e.keywords and is_s(e.args[0])
+                    and isinstance(e.args[1], ast.Constant) and e.args[1].value == 'close'
+                    and isinstance(e.args[2], ast.Constant) and e.args[2].value is None)
+        self.meth = aliases(f, bound)
+        self.opt = aliases(f, got)
+        self._got = got
+
+    def is_close_call(self, c) -> bool:
+        if not isinstance(c, ast.Call) or c.args or c.keywords:
+            return False
+        fn = c.func
+        if isinstance(fn, ast.Attribute):
+            return fn.attr == 'close' and self.is_s(fn.value)
+        return isinstance(fn, ast.Name) and (fn.id in self.meth or fn.id in self.opt)
+
+    def benign(self, c) -> bool:
+        """a call that mentions the stream without doing anything to it"""
+        return self._got(c) or (isinstance(c, ast.Call) and is_name(c.func, 'hasattr'))
+
+    def probe_stmt(self, s) -> bool:
+        """`c = getattr(S, 'close', None)` / `c = S.close`: looks the method up, calls nothing (like hasattr(): does not raise
+        for a stream that has the method; one that has not has nothing to close)"""
+        v = s.value if isinstance(s, (ast.Assign, ast.AnnAssign)) else None
+        return v is not None and (self._got(v) or (isinstance(v, ast.Attribute) and v.attr == 'close' and self.is_s(v.value)))
+
+    def atom(self, has: bool):
+        """valuation of the tests that ask whether the stream has a close()"""
+        is_opt = lambda e: isinstance(e, ast.Name) and e.id in self.opt  # noqa: E731
+
+        def atom(e):
+            if isinstance(e, ast.Call) and is_name(e.func, 'hasattr') and len(e.args) == 2 and self.is_s(e.args[0]) \
+                    and isinstance(e.args[1], ast.Constant) and e.args[1].value == 'close':
+                return has
+            pol = none_test(e, is_opt)
+            if pol is not None:
+                return pol == (not has)
+            if is_opt(e):
+                return has
+            return None
+        return atom
+
+    def decides(self, test) -> Optional[bool]:
+        """truth of a test for a stream WITHOUT close(), when it is the absence of close() that decides it"""
+        v = eval3(test, self.atom(False))
+        if v is None or eval3(test, lambda e: None) is not None:
+            return None
+        return v
+
+
+def _total_test(e) -> bool:
+    """A branch condition that cannot raise: hasattr() of names / constants combined by not / and / or, names, constants,
+    identity comparisons of those (`run.assume`: hasattr() on the response stream does not raise)."""
+    e = strip_await(e)
+    if isinstance(e, (ast.Name, ast.Constant)):
+        return True
+    if isinstance(e, ast.UnaryOp) and isinstance(e.op, ast.Not):
+        return _total_test(e.operand)
+    if isinstance(e, ast.BoolOp):
+        return all(_total_test(v) for v in e.values)
+    if isinstance(e, ast.Compare):
+        return all(isinstance(o, (ast.Is, ast.IsNot)) for o in e.ops) and all(_total_test(x) for x in [e.left] + list(e.comparators))
+    if isinstance(e, ast.Call) and is_name(e.func, 'hasattr') and len(e.args) == 2 and not e.keywords:
+        return all(isinstance(a, (ast.Name, ast.Constant)) for a in e.args)
+    return False
+
+
+def _close_summary(p, f: Func, fnode, call: ast.Call, is_s, depth=0) -> List[str]:
+    """Typestate labels of a call that is handed the response stream.  A module-level function / method of the same class
+    is read as its body (its parameter standing for the stream): the product of ITS CFG with the same OPEN -> CLOSED
+    automaton gives the states it can leave the stream in - on return and on raise.
+      closed exactly once on every return, and on every raise    -> '^CLOSE' (as the inline `await stream.close()`)
+      closed exactly once on every return, still open on a raise -> 'CLOSE'  (the exceptional edge keeps the stream open)
+      never touched                                              -> no event
+      closed twice                                               -> two events (the caller's automaton reports it)
+    Anything else (closed on some returns only) is not read.  A callee that does not resolve to analysed code (hasattr,
+    isasyncgenfunction, ...) does not close anything."""
+    t = p.callee(f, call) if p is not None else None
+    if not isinstance(t, Func):
+        return []
+    g = plain_helper(p, f, call)
+    bound = bind_args(g, call) if g is not None else None
+    if bound is None or depth > 2:
+        raise UnknownIdiom('%s: the response stream is handed to %s, which cannot be read as its body' % (f.qual, t.qual))
+    params = [k for k, v in bound.items() if is_s(v)]
+    if len(params) != 1:
+        raise UnknownIdiom('%s: the response stream is handed to %s more than once' % (f.qual, g.qual))
+    prm = params[0]
+    if any(isinstance(x, ast.Name) and x.id == prm and isinstance(x.ctx, (ast.Store, ast.Del)) for x in ast.walk(g.node)):
+        raise UnknownIdiom('%s rebinds its parameter %s' % (g.qual, prm))
+    awaited = any(isinstance(x, ast.Await) and x.value is call for x in ast.walk(fnode))
+    if g.is_async and not awaited:
+        if any(isinstance(x, ast.Expr) and x.value is call for x in ast.walk(fnode)):
+            return []           # a coroutine object that is dropped: its body never runs
+        raise UnknownIdiom('%s: the coroutine %s is not awaited on the spot' % (f.qual, g.qual))
+    if not g.is_async and awaited:
+        raise UnknownIdiom('%s: the result of the plain function %s is awaited' % (f.qual, g.qual))
+    al = aliases(g, lambda e: is_name(e, prm))
+    is_p = lambda e: isinstance(e, ast.Name) and (e.id == prm or e.id in al)  # noqa: E731
+    gcfg = cfg_of(g, p)
+    gix = Index(gcfg)
+    idi = _CloseIdioms(g, is_p)
+    labs: Dict[int, List[str]] = {}
+    for c in walk_self(g.node):
+        if not isinstance(c, ast.Call):
+            continue
+        if idi.is_close_call(c):
+            for nid in gix.nodes_of(c):
+                labs.setdefault(nid, []).append('^CLOSE')
+        elif idi.benign(c):
+            continue
+        elif any(is_p(a) for a in c.args) or any(is_p(k.value) for k in c.keywords):
+            inner = _close_summary(p, g, g.node, c, is_p, depth + 1)
+            for nid in gix.nodes_of(c):
+                labs.setdefault(nid, []).extend(inner)
+        elif any(is_p(x) for x in ast.walk(c) if x is not c.func):
+            raise UnknownIdiom('%s: cannot read what `%s` does with the stream' % (g.qual, short(c)))
+    for x in walk_self(g.node):
+        if isinstance(x, (ast.Return, ast.Yield, ast.YieldFrom)) and getattr(x, 'value', None) is not None and any(is_p(y) for y in ast.walk(x.value)):
+            raise UnknownIdiom('%s hands the stream back to its caller' % g.qual)
+        if isinstance(x, (ast.Assign, ast.AnnAssign)) and getattr(x, 'value', None) is not None and is_p(x.value):
+            tg = x.targets if isinstance(x, ast.Assign) else [x.target]
+            if not all(isinstance(t_, ast.Name) for t_ in tg):
+                raise UnknownIdiom('%s stores the stream in %s' % (g.qual, short(x)))
+
+    def delta(st, lab):
+        if lab == 'CLOSE':
+            return {'OPEN': 'CLOSED'}.get(st, 'TWICE')
+        return st
+
+    def edge_delta(st, x, y, l):
+        n = gcfg.node(x)
+        if n.kind == 'test':
+            if l == 'exc' and _total_test(n.ast):
+                return None
+            # the summary is the one of a stream that HAS a close() (without one there is nothing to close, whatever is done)
+            v = eval3(n.ast, idi.atom(True))
+            if v is not None and l in ('T', 'F') and (l == 'T') != v:
+                return None
+        if l == 'exc' and n.kind == 'stmt' and idi.probe_stmt(n.ast):
+            return None
+        return st
+
+    normal, exceptional = set(), set()
+    flow.typestate(gcfg, lambda n: labs.get(n.id, []), delta, 'OPEN', exit_ok=lambda st: normal.add(st) or True,
+                   xexit_ok=lambda st: exceptional.add(st) or True, edge_delta=edge_delta)
+    if 'TWICE' in normal | exceptional:
+        return ['^CLOSE', '^CLOSE']
+    if normal == {'CLOSED'} and exceptional <= {'CLOSED'}:
+        return ['^CLOSE']
+    if normal == {'CLOSED'} and 'OPEN' in exceptional:
+        return ['CLOSE']        # (a raise after the close is read as one before it: the open stream is what gets reported)
+    if normal <= {'OPEN'} and exceptional <= {'OPEN'}:
+        return []
+    raise UnknownIdiom('%s: %s closes the stream it is handed on some paths only (returns: %s, raises: %s)'
+                       % (f.qual, g.qual, sorted(normal), sorted(exceptional)))
+
+
 def _close_typestate(f: Func, fnode, cfg, ix: Index, is_s, loops, cancel: bool):
     """[(loop, counterexample | None)]: from each loop header, stream.close()
     runs exactly once before every exit.  cancel=True: `cfg` is the cancel
     view and the only exception that starts an exceptional exit is the one
     delivered at a suspension point (await / async for / async with)."""
     close_nodes = set()
+    helper_labels: Dict[int, List[str]] = {}
+    idi = _CloseIdioms(f, is_s)
     for c in walk_self(fnode):
-        if isinstance(c, ast.Call) and isinstance(c.func, ast.Attribute) and c.func.attr == 'close' and is_s(c.func.value):
+        if idi.is_close_call(c):
             close_nodes.update(ix.nodes_of(c))
-
-    def is_hasattr_close(e):
-        return (isinstance(e, ast.Call) and is_name(e.func, 'hasattr') and len(e.args) == 2 and is_s(e.args[0])
-                and isinstance(e.args[1], ast.Constant) and e.args[1].value == 'close')
+        elif isinstance(c, ast.Call) and not idi.benign(c) and (any(is_s(a) for a in c.args) or any(is_s(k.value) for k in c.keywords)):
+            # the stream is handed to a module-level / same-class helper: the call is what the helper does with it
+            labs = _close_summary(cfg.project, f, fnode, c, is_s)
+            for nid in ix.nodes_of(c):
+                helper_labels.setdefault(nid, []).extend(labs)
 
     def labels(n):
-        return ['^CLOSE'] if n.id in close_nodes else []
+        return (['^CLOSE'] if n.id in close_nodes else []) + helper_labels.get(n.id, [])
 
     def delta(st, lab):
         if lab == 'CLOSE':
@@ -1416,12 +1589,14 @@ def _close_typestate(f: Func, fnode, cfg, ix: Index, is_s, loops, cancel: bool):
 
     def edge_delta(st, x, y, l):
         n = cfg.node(x)
-        if n.kind == 'test' and mentions(n.ast, is_hasattr_close):
-            if l == 'exc' and is_hasattr_close(n.ast):
+        if n.kind == 'test':
+            if l == 'exc' and _total_test(n.ast):
                 return None  # hasattr() itself does not raise
-            v = eval3(n.ast, lambda e: False if is_hasattr_close(e) else None)
+            v = idi.decides(n.ast)
             if v is not None and l in ('T', 'F') and (l == 'T') == v and st.startswith('OPEN'):
                 return 'CLOSED' + st[4:]  # nothing to close
+        if l == 'exc' and n.kind == 'stmt' and idi.probe_stmt(n.ast):
+            return None
         if cancel and l == 'exc' and not st.endswith('!'):
             if not n.susp:
                 return None  # ordinary errors are the subject of the other pass
@@ -1702,26 +1877,92 @@ def _get_body_wrapping(run, closer: Class):
 # R7 SSE framing and status normalisation
 # ---------------------------------------------------------------------------
 
-def _str_tail(p, f: Func, e) -> Optional[str]:
-    """'' (empty), 'NL' (ends with a newline), 'OTHER' for a str expression"""
-    if isinstance(e, ast.Constant) and isinstance(e.value, str):
-        return 'EMPTY' if e.value == '' else ('NL' if e.value.endswith('\n') else 'OTHER')
-    if isinstance(e, ast.JoinedStr):
-        if not e.values:
-            return 'EMPTY'
-        last = e.values[-1]
-        if isinstance(last, ast.Constant) and isinstance(last.value, str) and last.value.endswith('\n'):
-            return 'NL'
-        return 'OTHER'
-    if isinstance(e, ast.BinOp) and isinstance(e.op, ast.Add):
-        r = _str_tail(p, f, e.right)
-        if r == 'EMPTY':
-            return _str_tail(p, f, e.left)
-        return r
-    return None
+# An event text is read as an ORDERED SEQUENCE OF PIECES, whatever holds it while it is put together: a str local
+# extended with `+=` / `x = x + ...`, or a list local extended with append()/extend()/`+= [...]` and materialised by
+# `''.join(parts)`.  Abstract value of a text: (has, only_nl, tnl, exact)
+#   has     'E' certainly empty | 'N' certainly not empty | '?'           (what a truthiness test of it sees)
+#   only_nl it consists of newlines only (vacuously true for the empty text)
+#   tnl     number of newlines it certainly ends with, capped at 2
+#   exact   tnl is the exact count (capped); False: an opaque value decides the tail
+_T_EMPTY = ('E', True, 0, True)
+_T_OPAQUE = ('?', False, 0, False)
+# a formatted field inside an f-string: an SSE field value is a single line (documented), it contributes no trailing newline
+_T_FIELD = ('?', False, 0, True)
+
+
+def _t_const(s) -> tuple:
+    if isinstance(s, bytes):
+        s = s.decode('latin-1')
+    if s == '':
+        return _T_EMPTY
+    k = len(s) - len(s.rstrip('\n'))
+    return ('N', s.strip('\n') == '', min(2, k), True)
+
+
+def _t_cat(a: tuple, b: tuple) -> tuple:
+    ah, ao, at, ax = a
+    bh, bo, bt, bx = b
+    has = 'N' if 'N' in (ah, bh) else ('E' if ah == bh == 'E' else '?')
+    if bh == 'E':
+        return (has, ao, at, ax)
+    if bh == 'N' and bo:
+        t = min(2, at + bt)
+        return (has, ao, t, ax or t >= 2)
+    if bh == 'N':
+        return (has, False, bt, bx)
+    # b may be empty: the tail is b's or a's
+    t = min(at, bt)
+    return (has, ao and bo, t, ax and bx and at == bt)
+
+
+def _text_accumulators(f: Func) -> Tuple[Set[str], Set[str]]:
+    """(str accumulators, list accumulators) of f: locals a text is put together in."""
+    strs: Set[str] = set()
+    lists: Set[str] = set()
+    params = set(f.params())
+    for n in walk_self(f.node):
+        if isinstance(n, ast.AugAssign) and isinstance(n.target, ast.Name) and isinstance(n.op, ast.Add) and not isinstance(n.value, (ast.List, ast.Tuple)):
+            strs.add(n.target.id)
+        elif isinstance(n, ast.Assign):
+            for t in n.targets:
+                if isinstance(t, ast.Name) and any(is_name(y, t.id) for y in ast.walk(n.value)):
+                    strs.add(t.id)          # x = x + ...
+        elif isinstance(n, ast.Call) and isinstance(n.func, ast.Attribute) and n.func.attr in ('append', 'extend') and isinstance(n.func.value, ast.Name):
+            lists.add(n.func.value.id)
+    # a list accumulator is bound to a list display / list() / an annotated empty list
+    ok = set()
+    for n in walk_self(f.node):
+        tg, v = None, None
+        if isinstance(n, ast.Assign) and len(n.targets) == 1:
+            tg, v = n.targets[0], n.value
+        elif isinstance(n, ast.AnnAssign):
+            tg, v = n.target, n.value
+        if isinstance(tg, ast.Name) and tg.id in lists and v is not None:
+            if isinstance(v, ast.List) or (isinstance(v, ast.Call) and is_name(v.func, 'list') and not v.args and not v.keywords):
+                ok.add(tg.id)
+    lists = {x for x in lists & ok if x not in params}
+    strs = {x for x in strs if x not in params and x not in lists}
+    # a local computed from an accumulator (`text = ''.join(parts)`) carries the event text on
+    changed = True
+    while changed:
+        changed = False
+        for n in walk_self(f.node):
+            if isinstance(n, (ast.Assign, ast.AnnAssign)) and getattr(n, 'value', None) is not None:
+                tg = n.targets if isinstance(n, ast.Assign) else [n.target]
+                if any(isinstance(y, ast.Name) and y.id in strs | lists for y in ast.walk(n.value)):
+                    for t in tg:
+                        if isinstance(t, ast.Name) and t.id not in strs and t.id not in lists and t.id not in params:
+                            strs.add(t.id)
+                            changed = True
+    return strs, lists
 
 
 def _sse(run):
+    """SSEvent.serialize: every returned event ends with a blank line.  The event text is evaluated as an ordered sequence
+    of pieces over the CFG (typestate: per accumulator the emptiness a test of it sees and the number of newlines the text
+    certainly ends with); `block += piece` and `parts.append(piece)` ... `''.join(parts)` are the same abstract text.
+    Every `return` must hand back bytes that end with two newlines.
+    W: two consecutive events are merged by the client-side parser."""
     p = run.project
     f = p.func('falcon.asgi.structures.SSEvent.serialize')
     cfg = cfg_of(f, p)
@@ -1729,95 +1970,229 @@ def _sse(run):
     rets = [n for n in cfg.live_nodes() if n.kind == 'stmt' and isinstance(n.ast, ast.Return)]
     if not rets:
         raise AnchorError('%s: no return' % f.qual)
-    # the accumulated text block
-    blocks = set()
-    for n in walk_self(f.node):
-        if isinstance(n, ast.AugAssign) and isinstance(n.target, ast.Name) and isinstance(n.op, ast.Add):
-            blocks.add(n.target.id)
-    blk = single(sorted(blocks), 'accumulated event text local', f.qual)
+    strs, lists = _text_accumulators(f)
+    accs = sorted(strs | lists)
+    if not accs:
+        raise AnchorError('%s: no local in which the event text is put together (str extended with += / list of pieces joined) was found' % f.qual)
+    ob = {k: v for k, v in once_bound(f).items() if k not in strs and k not in lists}
 
-    def need(v) -> Optional[str]:
-        """what the return value requires of the block: 'any' | 'NL' | None=unknown idiom | 'BAD'"""
-        if isinstance(v, ast.Constant) and isinstance(v.value, bytes):
-            return 'any' if v.value.endswith(b'\n\n') else 'BAD'
-        if isinstance(v, ast.BinOp) and isinstance(v.op, ast.Add):
-            r = v.right
-            if isinstance(r, ast.Constant) and isinstance(r.value, bytes):
-                if r.value.endswith(b'\n\n'):
-                    return 'any'
-                # a single trailing newline after an opaque value: whether a blank line results is not decidable here
-                return None if r.value.endswith(b'\n') else 'BAD'
-            return None
-        if isinstance(v, ast.Call) and isinstance(v.func, ast.Attribute) and v.func.attr == 'encode' and not v.args:
-            s = v.func.value
-            if isinstance(s, ast.BinOp) and isinstance(s.op, ast.Add) and isinstance(s.right, ast.Constant) and isinstance(s.right.value, str):
-                if s.right.value.endswith('\n\n'):
-                    return 'any'
-                if s.right.value == '\n':
-                    return 'NL' if is_name(s.left, blk) else None
-                return 'BAD'
-            if is_name(s, blk):
-                return 'NLNL'
-            return None
-        return None
+    def enc(S: Dict[str, Optional[tuple]]) -> str:
+        return ';'.join('%s=%s' % (k, 'U' if S[k] is None else '%s%d%s' % (S[k][0], S[k][2], 'x' if S[k][3] else '~')) for k in accs)
+
+    def dec(st: str) -> Dict[str, Optional[tuple]]:
+        out: Dict[str, Optional[tuple]] = {}
+        for item in st.split(';'):
+            k, _, v = item.partition('=')
+            out[k] = None if v == 'U' else (v[0], v[0] == 'E', int(v[1]), v[2] == 'x')
+        return out
+
+    def acc_value(S, name):
+        v = S.get(name)
+        return _T_OPAQUE if v is None else v
+
+    def text(e, S, depth=0) -> tuple:
+        """abstract value of a str / bytes expression in state S"""
+        e = strip_await(e)
+        if depth > 8:
+            return _T_OPAQUE
+        if isinstance(e, ast.Constant) and isinstance(e.value, (str, bytes)):
+            return _t_const(e.value)
+        if isinstance(e, ast.JoinedStr):
+            out = _T_EMPTY
+            for x in e.values:
+                out = _t_cat(out, _t_const(x.value) if isinstance(x, ast.Constant) and isinstance(x.value, str) else _T_FIELD)
+            return out
+        if isinstance(e, ast.BinOp) and isinstance(e.op, ast.Add):
+            return _t_cat(text(e.left, S, depth + 1), text(e.right, S, depth + 1))
+        if isinstance(e, ast.IfExp):
+            a, b = text(e.body, S, depth + 1), text(e.orelse, S, depth + 1)
+            if a == b:
+                return a
+            return ('N' if a[0] == b[0] == 'N' else ('E' if a[0] == b[0] == 'E' else '?'), a[1] and b[1], min(a[2], b[2]), a[3] and b[3] and a[2] == b[2])
+        if isinstance(e, ast.Name):
+            if e.id in strs:
+                return acc_value(S, e.id)
+            if e.id in lists:
+                raise UnknownIdiom('%s: the list of pieces %s is used as a text in %s' % (f.qual, e.id, short(e)))
+            if e.id in ob:
+                return text(ob[e.id], S, depth + 1)
+            v = p.fold(f.module, e, f.cls, f)
+            return _t_const(v) if isinstance(v, (str, bytes)) else _T_OPAQUE
+        if isinstance(e, ast.Call) and isinstance(e.func, ast.Attribute):
+            fn = e.func
+            if fn.attr in ('encode', 'decode'):
+                return text(fn.value, S, depth + 1)
+            if fn.attr == 'join' and len(e.args) == 1 and not e.keywords:
+                sep = p.fold(f.module, fn.value, f.cls, f)
+                a0 = e.args[0]
+                if isinstance(a0, ast.Name) and a0.id in lists:
+                    if sep not in ('', b''):
+                        raise UnknownIdiom('%s: the pieces of the event text are joined with %s' % (f.qual, short(fn.value)))
+                    return acc_value(S, a0.id)
+                if isinstance(a0, (ast.List, ast.Tuple)) and sep in ('', b'') and not any(isinstance(x, ast.Starred) for x in a0.elts):
+                    out = _T_EMPTY
+                    for x in a0.elts:
+                        out = _t_cat(out, text(x, S, depth + 1))
+                    return out
+        if isinstance(e, ast.Call) and is_name(e.func, 'bytes') and e.args:
+            return text(e.args[0], S, depth + 1)
+        if isinstance(e, ast.Attribute) and is_name(e.value, 'self'):
+            return _T_FIELD            # a field of the event concatenated as it is: as in an f-string
+        if isinstance(e, ast.Call) and is_name(e.func, 'str') and len(e.args) == 1 and not e.keywords:
+            return _T_FIELD
+        if any(isinstance(x, ast.Name) and x.id in lists for x in ast.walk(e)):
+            raise UnknownIdiom('%s: cannot read how `%s` uses the list of pieces' % (f.qual, short(e)))
+        return _T_OPAQUE
+
+    def pieces(display, S) -> tuple:
+        out = _T_EMPTY
+        for x in display.elts:
+            if isinstance(x, ast.Starred):
+                raise UnknownIdiom('%s: starred piece in %s' % (f.qual, short(display)))
+            out = _t_cat(out, text(x, S))
+        # a list with an element is truthy whatever the element is
+        return (('N' if display.elts else 'E'),) + out[1:]
+
+    ops: List = []
+
+    def op(fn) -> str:
+        ops.append(fn)
+        return 'OP:%d' % (len(ops) - 1)
+
+    def set_acc(name, value):
+        def run_(S):
+            S = dict(S)
+            if name in lists:
+                if isinstance(value, ast.List):
+                    S[name] = pieces(value, S)
+                elif isinstance(value, ast.Call) and is_name(value.func, 'list') and not value.args:
+                    S[name] = _T_EMPTY
+                else:
+                    raise UnknownIdiom('%s: the list of pieces %s is bound to %s' % (f.qual, name, short(value)))
+            else:
+                S[name] = text(value, S)
+            return S
+        return run_
+
+    def app_acc(name, value, many=False):
+        def run_(S):
+            S = dict(S)
+            cur = acc_value(S, name)
+            if name in lists:
+                if many:
+                    if not isinstance(value, (ast.List, ast.Tuple)):
+                        raise UnknownIdiom('%s: %s is extended with %s' % (f.qual, name, short(value)))
+                    add = pieces(value, S)
+                    new = _t_cat(cur, add)
+                    S[name] = (('N' if value.elts else cur[0]),) + new[1:]
+                else:
+                    new = _t_cat(cur, text(value, S))
+                    S[name] = ('N',) + new[1:]
+            else:
+                S[name] = _t_cat(cur, text(value, S))
+            return S
+        return run_
+
+    def ret(value, node):
+        def run_(S):
+            if value is None:
+                return ERROR
+            v = text(value, S)
+            if v[2] >= 2:
+                return S
+            if not v[3]:
+                # after an opaque value whether a blank line results is not decidable here
+                raise UnknownIdiom('%s: cannot tell how `%s` ends' % (f.qual, short(node)))
+            return ERROR
+        return run_
+
+    label_cache: Dict[int, List[str]] = {}
 
     def labels(n):
+        if n.id in label_cache:
+            return label_cache[n.id]
         out = []
         if n.kind == 'stmt':
             a = n.ast
             if isinstance(a, (ast.Assign, ast.AnnAssign)) and a.value is not None:
                 tg = a.targets if isinstance(a, ast.Assign) else [a.target]
-                if any(is_name(t, blk) for t in tg):
-                    t = _str_tail(p, f, a.value)
-                    if t is None:
+                for t in tg:
+                    if isinstance(t, ast.Name) and t.id in strs | lists:
+                        out.append(op(set_acc(t.id, a.value)))
+                    elif any(isinstance(x, ast.Name) and x.id in strs | lists for x in ast.walk(t)):
                         raise UnknownIdiom('%s: %s' % (f.qual, short(a)))
-                    out.append('SET:' + t)
-            elif isinstance(a, ast.AugAssign) and is_name(a.target, blk):
-                t = _str_tail(p, f, a.value)
-                if t is None:
+            elif isinstance(a, ast.AugAssign) and isinstance(a.target, ast.Name) and a.target.id in strs | lists:
+                if not isinstance(a.op, ast.Add):
                     raise UnknownIdiom('%s: %s' % (f.qual, short(a)))
-                out.append('APP:' + t)
+                out.append(op(app_acc(a.target.id, a.value, many=a.target.id in lists)))
+            elif isinstance(a, ast.Expr) and isinstance(a.value, ast.Call) and isinstance(a.value.func, ast.Attribute) \
+                    and isinstance(a.value.func.value, ast.Name) and a.value.func.value.id in lists:
+                c = a.value
+                if c.func.attr == 'append' and len(c.args) == 1 and not c.keywords:
+                    out.append(op(app_acc(c.func.value.id, c.args[0])))
+                elif c.func.attr == 'extend' and len(c.args) == 1 and not c.keywords:
+                    out.append(op(app_acc(c.func.value.id, c.args[0], many=True)))
+                else:
+                    raise UnknownIdiom('%s: the list of pieces is modified by %s' % (f.qual, short(a)))
             elif isinstance(a, ast.Return):
-                nd = need(a.value)
-                if nd is None:
-                    raise UnknownIdiom('%s: %s' % (f.qual, short(a)))
-                out.append('RET:' + nd)
+                out.append(op(ret(a.value, a)))
+            elif any(isinstance(x, ast.Name) and x.id in lists for x in n.walk()):
+                raise UnknownIdiom('%s: cannot read how `%s` uses the list of pieces' % (f.qual, short(a)))
+        label_cache[n.id] = out
         return out
 
     def delta(st, lab):
-        k, _, v = lab.partition(':')
-        if k == 'SET':
-            return v
-        if k == 'APP':
-            return st if v == 'EMPTY' else v
-        if k == 'RET':
-            if v == 'BAD' or v == 'NLNL':
-                return ERROR
-            if v == 'NL' and st != 'NL':
-                return ERROR
-        return st
+        S = ops[int(lab.partition(':')[2])](dec(st))
+        return ERROR if S is ERROR else enc(S)
+
+    def has_atom(S, unknown_as: str):
+        def has_of(e) -> Optional[str]:
+            if isinstance(e, ast.Name) and e.id in strs | lists:
+                h = acc_value(S, e.id)[0]
+                return unknown_as if h == '?' else h
+            return None
+
+        def atom(e):
+            h = has_of(e)
+            if h is not None:
+                return h == 'N'
+            if isinstance(e, ast.Compare) and len(e.ops) == 1:
+                l, r, o = e.left, e.comparators[0], e.ops[0]
+                # <str acc> == '' / != ''   <list acc> == [] / != []
+                if has_of(l) is not None and ((isinstance(r, ast.Constant) and r.value in ('', b'')) or (isinstance(r, (ast.List, ast.Tuple)) and not r.elts)):
+                    if isinstance(o, ast.Eq):
+                        return has_of(l) == 'E'
+                    if isinstance(o, ast.NotEq):
+                        return has_of(l) == 'N'
+                # len(acc) == 0 / != 0 / > 0 / >= 1 / < 1
+                if isinstance(l, ast.Call) and is_name(l.func, 'len') and len(l.args) == 1 and has_of(l.args[0]) is not None \
+                        and isinstance(r, ast.Constant) and r.value in (0, 1):
+                    nonempty = has_of(l.args[0]) == 'N'
+                    table = {(ast.Eq, 0): not nonempty, (ast.NotEq, 0): nonempty, (ast.Gt, 0): nonempty, (ast.GtE, 1): nonempty,
+                             (ast.Lt, 1): not nonempty, (ast.LtE, 0): not nonempty}
+                    return table.get((type(o), r.value))
+            if isinstance(e, ast.Call) and is_name(e.func, 'len') and len(e.args) == 1 and has_of(e.args[0]) is not None:
+                return has_of(e.args[0]) == 'N'
+            if isinstance(e, ast.Call) and is_name(e.func, 'bool') and len(e.args) == 1 and has_of(e.args[0]) is not None:
+                return has_of(e.args[0]) == 'N'
+            return None
+        return atom
 
     def edge_delta(st, x, y, l):
         n = cfg.node(x)
         if n.kind == 'test' and l in ('T', 'F'):
-            def atom(e):
-                if is_name(e, blk):
-                    return st != 'EMPTY'
-                if isinstance(e, ast.Compare) and len(e.ops) == 1 and is_name(e.left, blk) and isinstance(e.comparators[0], ast.Constant) \
-                        and e.comparators[0].value == '':
-                    if isinstance(e.ops[0], ast.Eq):
-                        return st == 'EMPTY'
-                    if isinstance(e.ops[0], ast.NotEq):
-                        return st != 'EMPTY'
-                return None
-            v = eval3(n.ast, atom)
-            if v is None and mentions(n.ast, lambda e: is_name(e, blk)):
+            if not mentions(n.ast, lambda e: isinstance(e, ast.Name) and e.id in strs | lists):
+                return st
+            S = dec(st)
+            v1, v2 = eval3(n.ast, has_atom(S, 'N')), eval3(n.ast, has_atom(S, 'E'))
+            if v1 is None and v2 is None:
                 raise UnknownIdiom('%s: test of the event text %s' % (f.qual, short(n.ast)))
-            if v is not None and v != (l == 'T'):
+            if v1 is not None and v1 == v2 and v1 != (l == 'T'):
                 return None
         return st
 
-    cex, nst, _t = flow.typestate(cfg, labels, delta, 'UNSET', edge_delta=edge_delta)
+    cex, nst, _t = flow.typestate(cfg, labels, delta, enc({k: None for k in accs}), edge_delta=edge_delta)
+    run.extra['c05_r7_sse_text'] = {'str_accumulators': sorted(strs), 'list_accumulators': sorted(lists), 'states': nst}
     what = 'SSEvent.serialize: every returned event ends with a blank line (\\n\\n)'
     if cex is None:
         for r in rets:
@@ -1888,6 +2263,9 @@ def _sse_precedence(run):
     accs = {n.target.id for n in walk_self(f.node) if isinstance(n, ast.AugAssign) and isinstance(n.target, ast.Name)}
     accs |= {t.id for n in walk_self(f.node) if isinstance(n, ast.Assign) for t in n.targets            # x = x + ...
              if isinstance(t, ast.Name) and any(is_name(y, t.id) for y in ast.walk(n.value))}
+    # ... and the lists of pieces (append / extend, joined at the end): the same accumulated text
+    _strs, list_accs = _text_accumulators(f)
+    accs |= list_accs
     derived: Dict[str, Set[str]] = {}
 
     def sources(e, skip_accs=True) -> Set[str]:
@@ -1936,6 +2314,10 @@ def _sse_precedence(run):
             continue                          # a local computed from the payload: judged where it is emitted
         if isinstance(a, ast.AugAssign) and isinstance(a.target, ast.Name):
             emits[n.id] = got
+            continue
+        if isinstance(a, ast.Expr) and isinstance(a.value, ast.Call) and isinstance(a.value.func, ast.Attribute) \
+                and a.value.func.attr in ('append', 'extend', 'insert') and isinstance(a.value.func.value, ast.Name) and a.value.func.value.id in list_accs:
+            emits[n.id] = got            # a piece of the accumulated text
             continue
         if isinstance(a, ast.Return):
             emits[n.id] = got
@@ -2591,6 +2973,110 @@ RAW_SETTERS = {
 _STR_METHODS = {'lower', 'upper', 'strip', 'title', 'format', 'join', 'encode', 'decode', 'replace'}
 
 
+class _NativeValues:
+    """Def-use from a value stored in the header store back to what the CALLER passed: `raw(e, nid)` is a description of
+    the first caller-supplied value that reaches `e` (evaluated at CFG node nid of f) without passing str(), or None.
+    Read alike: a local and what it was bound to; `str()` / a str method / an f-string / `+` and `%` of such; a value
+    already in the store; a module-level or same-class helper that is handed the value (its returns are read with its
+    parameters bound to the arguments); an additive parameter with a str default that no caller in the package passes."""
+
+    def __init__(self, p, f: Func, cfg, ix: Index, is_store, args: Optional[Dict[str, Callable[[], Optional[str]]]] = None, depth=0):
+        self.p, self.f, self.cfg, self.ix, self.is_store = p, f, cfg, ix, is_store
+        self.args = args            # inlined helper: parameter -> verdict of the caller's argument
+        self.level = depth
+
+    def raw(self, e, nid, depth=0):
+        p, f = self.p, self.f
+        e = strip_await(e)
+        if isinstance(e, ast.Constant):
+            return None
+        if isinstance(e, ast.Call):
+            if is_name(e.func, 'str'):
+                return None
+            if isinstance(e.func, ast.Attribute) and e.func.attr in _STR_METHODS:
+                return None         # a str method: returns a str or raises for anything else
+            g = plain_helper(p, f, e) if self.level < 2 else None
+            bound = bind_args(g, e) if g is not None and not g.is_async else None
+            if bound is not None:
+                gcfg = cfg_of(g, p)
+                sub = _NativeValues(p, g, gcfg, Index(gcfg), lambda x: False,
+                                    {k: (lambda v=v: self.raw(v, nid, depth + 1)) for k, v in bound.items()}, self.level + 1)
+                rets = [n for n in gcfg.live_nodes() if n.kind == 'stmt' and isinstance(n.ast, ast.Return) and n.ast.value is not None]
+                if rets:
+                    for r in rets:
+                        got = sub.raw(r.ast.value, r.id)
+                        if got:
+                            return got
+                    return None
+            raise UnknownIdiom('%s: cannot tell what `%s` returns' % (f.qual, short(e)))
+        if isinstance(e, ast.JoinedStr):
+            return None
+        if isinstance(e, ast.BinOp) and isinstance(e.op, (ast.Add, ast.Mod)):
+            return self.raw(e.left, nid, depth) or self.raw(e.right, nid, depth)
+        if isinstance(e, ast.IfExp):
+            return self.raw(e.body, nid, depth) or self.raw(e.orelse, nid, depth)
+        if isinstance(e, (ast.Tuple, ast.List)):
+            for x in e.elts:
+                r = self.raw(x, nid, depth)
+                if r:
+                    return r
+            return None
+        if isinstance(e, ast.Subscript) and self.is_store(e.value):
+            return None             # a value that is in the store already
+        if isinstance(e, (ast.Name, ast.Attribute)) and isinstance(p.fold(f.module, e, f.cls, f), str):
+            return None             # a module-level / class-level str constant
+        if isinstance(e, ast.Name):
+            if depth > 6:
+                raise UnknownIdiom('%s: definition chain of %s too deep' % (f.qual, e.id))
+            for d in self.ix.defs_reaching(nid, e.id):
+                dv = def_value(self.cfg, d, e.id)
+                if dv[0] == 'expr' and dv[1] is not None:
+                    r = self.raw(dv[1], d, depth + 1)
+                    if r:
+                        return r
+                elif dv[0] == 'aug' and isinstance(dv[1], ast.Add):
+                    # x += y: the old x and y
+                    r = self.raw(dv[2], d, depth + 1)
+                    if r:
+                        return r
+                    for d0 in self.ix.defs_reaching(d, e.id):
+                        if d0 != d:
+                            dv0 = def_value(self.cfg, d0, e.id)
+                            if dv0[0] == 'param':
+                                return self._param(e.id)
+                            if dv0[0] == 'expr' and dv0[1] is not None:
+                                r = self.raw(dv0[1], d0, depth + 1)
+                                if r:
+                                    return r
+                            elif dv0[0] != 'aug':
+                                raise UnknownIdiom('%s: binding of %s not understood' % (f.qual, e.id))
+                elif dv[0] == 'param':
+                    r = self._param(e.id)
+                    if r:
+                        return r
+                elif dv[0] in ('iter', 'unpack'):
+                    return 'an item of `%s`' % short(dv[1], 40)
+                else:
+                    raise UnknownIdiom('%s: binding of %s not understood' % (f.qual, e.id))
+            return None
+        raise UnknownIdiom('%s: header value expression `%s` not understood' % (f.qual, short(e)))
+
+    def _param(self, name):
+        p, f = self.p, self.f
+        if self.args is not None:
+            if name not in self.args:
+                raise UnknownIdiom('%s: parameter %s of the inlined helper is not bound' % (f.qual, name))
+            return self.args[name]()
+        # an additive parameter with a default that no caller in the package passes is its default
+        dflt = inert_default(p, f, name)
+        if dflt is None:
+            return 'the parameter `%s`' % name
+        dval = p.fold(f.module, dflt, f.cls, None)
+        if not isinstance(dval, str):
+            raise UnknownIdiom('%s: the optional parameter `%s` (default %s) reaches the header store' % (f.qual, name, short(dflt)))
+        return None
+
+
 def r12_native_header_values(run):
     """WSGI: "native-string header pairs"; ASGI: the value is `.encode()`d when the start event is built.  Whatever the
     raw setters of falcon.Response store into the header dict / the extra-header list and that derives from what the CALLER
@@ -2610,46 +3096,7 @@ def r12_native_header_values(run):
         hd_al = aliases(f, lambda e: is_self_attr(e, '_headers'))
         is_store = lambda e: is_self_attr(e, '_headers') or is_self_attr(e, '_extra_headers') or (isinstance(e, ast.Name) and e.id in hd_al)  # noqa: E731
 
-        def raw(e, nid, depth=0):
-            """The first caller-supplied value that reaches `e` without passing str(): a description, or None."""
-            e = strip_await(e)
-            if isinstance(e, ast.Constant):
-                return None
-            if isinstance(e, ast.Call):
-                if is_name(e.func, 'str'):
-                    return None
-                if isinstance(e.func, ast.Attribute) and e.func.attr in _STR_METHODS:
-                    return None         # a str method: returns a str or raises for anything else
-                raise UnknownIdiom('%s: cannot tell what `%s` returns' % (f.qual, short(e)))
-            if isinstance(e, ast.JoinedStr):
-                return None
-            if isinstance(e, ast.BinOp) and isinstance(e.op, (ast.Add, ast.Mod)):
-                return raw(e.left, nid, depth) or raw(e.right, nid, depth)
-            if isinstance(e, (ast.Tuple, ast.List)):
-                for x in e.elts:
-                    r = raw(x, nid, depth)
-                    if r:
-                        return r
-                return None
-            if isinstance(e, ast.Subscript) and is_store(e.value):
-                return None             # a value that is in the store already
-            if isinstance(e, ast.Name):
-                if depth > 4:
-                    raise UnknownIdiom('%s: definition chain of %s too deep' % (f.qual, e.id))
-                for d in ix.defs_reaching(nid, e.id):
-                    dv = def_value(cfg, d, e.id)
-                    if dv[0] == 'expr' and dv[1] is not None:
-                        r = raw(dv[1], d, depth + 1)
-                        if r:
-                            return r
-                    elif dv[0] == 'param':
-                        return 'the parameter `%s`' % e.id
-                    elif dv[0] in ('iter', 'unpack'):
-                        return 'an item of `%s`' % short(dv[1], 40)
-                    else:
-                        raise UnknownIdiom('%s: binding of %s not understood' % (f.qual, e.id))
-                return None
-            raise UnknownIdiom('%s: header value expression `%s` not understood' % (f.qual, short(e)))
+        raw = _NativeValues(p, f, cfg, ix, is_store).raw
 
         sinks = []          # (node id, value expression, construct)
         for nd in cfg.live_nodes():
@@ -2663,6 +3110,10 @@ def r12_native_header_values(run):
                     elif is_self_attr(t, '_extra_headers') and isinstance(s_.value, (ast.List, ast.Tuple)):
                         for pair in s_.value.elts:
                             sinks.append((nd.id, pair.elts[1] if isinstance(pair, ast.Tuple) and len(pair.elts) == 2 else pair, s_))
+            elif isinstance(s_, ast.AugAssign) and isinstance(s_.target, ast.Subscript) and is_store(s_.target.value):
+                sinks.append((nd.id, s_.value, s_))       # store[k] += v: what was there is native already
+            elif isinstance(s_, ast.AnnAssign) and s_.value is not None and isinstance(s_.target, ast.Subscript) and is_store(s_.target.value):
+                sinks.append((nd.id, s_.value, s_))
             for c in nd.walk():
                 if isinstance(c, ast.Call) and isinstance(c.func, ast.Attribute) and c.func.attr in ('append', 'insert', 'extend', 'setdefault', 'update') \
                         and is_store(c.func.value):
